@@ -46,8 +46,67 @@ class BV:
                     if e["k"] == "field":
                         self.upvar_names.setdefault(e["i"], d["n"])
                         break
+        self.allowed = None
         self._index_defs()
         self._build_cfg()
+
+    def restrict(self, blocks):
+        """Context manager: value tracing only sees definitions in `blocks`."""
+        bv = self
+
+        class _R:
+            def __enter__(self_):
+                self_.old = bv.allowed
+                bv.allowed = set(blocks)
+
+            def __exit__(self_, *a):
+                bv.allowed = self_.old
+        return _R()
+
+    def arm_region(self, switch_bi, target):
+        """Blocks that can execute when `target` is the successor taken at `switch_bi`:
+        everything except blocks reachable only through the other successors."""
+        others = [b for b in self.succ[switch_bi] if b != target]
+        mine = self.reach_from([target])
+        theirs = self.reach_from(others, avoid=[switch_bi]) if others else set()
+        return self.reach0 - (theirs - mine)
+
+    def decision_paths(self, start, local, limit=256):
+        """Enumerate acyclic paths from block `start` to a return; for each, the list of branch
+        conditions taken [(switch block, label)] and the last definition (block, stmt/term) of
+        `local` on the path.  Used to read small boolean/aggregate-valued match arms exactly."""
+        out = []
+
+        def last_def(bi):
+            bl = self.blocks[bi]
+            t = bl["t"]
+            if t["k"] == "call" and not t["dest"].get("p") and t["dest"]["l"] == local:
+                return (bi, None)
+            for si in range(len(bl["s"]) - 1, -1, -1):
+                s = bl["s"][si]
+                if s["k"] == "assign" and not s["p"].get("p") and s["p"]["l"] == local:
+                    return (bi, si)
+            return None
+
+        def go(bi, conds, cur, seen):
+            if len(out) >= limit:
+                return
+            d = last_def(bi)
+            if d is not None:
+                cur = d
+            if self.blocks[bi]["t"]["k"] == "return":
+                out.append((list(conds), cur))
+                return
+            ss = self.succ[bi]
+            for b in ss:
+                if b in seen:
+                    continue
+                c2 = conds
+                if len(ss) > 1:
+                    c2 = conds + [(bi, tuple(self.edge_label.get((bi, b), [])))]
+                go(b, c2, cur, seen | {b})
+        go(start, [], None, {start})
+        return out
 
     # ------------------------------------------------------------------ defs
     def _index_defs(self):
@@ -235,7 +294,8 @@ class BV:
             return ("rec", l)
         seen = seen | {l}
         ds = self.defs.get(l, [])
-        ds = [d for d in ds if d[0] in self.reach0]
+        live = self.allowed if self.allowed is not None else self.reach0
+        ds = [d for d in ds if d[0] in live]
         if not ds:
             if 1 <= l <= self.argc:
                 return ("param", l)
